@@ -609,12 +609,196 @@ def suite_real_kdtree_params(ctx):
                  sample={"input": inp, "layout_sensitive": layout_sensitive, "metric_sensitive": metric_sensitive})
 
 
+# ---------------------------------------------------------------------------------------------------------------------------------
+# sequences of multi-process calls in one interpreter, some of which fail legitimately
+
+_SEQ_DEFS = [{"proj": "laea", "lat_0": 10, "lon_0": 20, "ellps": "WGS84"},
+             {"proj": "stere", "lat_0": 90, "lon_0": 0, "lat_ts": 60, "ellps": "WGS84"},
+             {"proj": "eqc", "lon_0": 0, "ellps": "WGS84"},
+             {"proj": "merc", "lon_0": -40, "ellps": "WGS84"},
+             {"proj": "lcc", "lat_1": 30, "lat_2": 60, "lat_0": 45, "lon_0": 10, "ellps": "WGS84"}]
+
+
+def _seq_cfg(r):
+    return {"nprocs": r.choice([1, 2, 2, 3, 4]), "chunk": r.choice([None, None, 1, 5, 7, 64]), "schedule": r.choice(KINDS)}
+
+
+def _seq_step(r):
+    """one call of a sequence, as plain data (replayable): what is called, on what (a seed for the arrays), with which arguments"""
+    if r.random() < 0.5:
+        bad = r.choice([None, None, None, "latitude-out-of-range", "latitude-out-of-range", "inverse-far-outside", "unknown-projection"])
+        st = {"op": "proj", "object": r.choice(["A", "B", "fresh"]), "definition": r.randrange(len(_SEQ_DEFS)), "n": r.choice([1, 4, 7, 100, 1001]),
+              "data_seed": r.randrange(10 ** 6), "direction": {"inverse-far-outside": "inverse", "latitude-out-of-range": "forward"}.get(bad) or r.choice(["forward", "forward", "inverse"]),
+              "errcheck": True if bad else r.random() < 0.3, "bad": bad, **_seq_cfg(r)}
+        if bad in ("latitude-out-of-range", "inverse-far-outside"):
+            st["n_bad_points"] = r.choice([1, 1, 2, "all"])
+            if r.random() < 0.15:
+                st["errcheck"] = False        # then nothing raises anywhere: infinities in both results
+    else:
+        bad = r.choice([None, None, None, "p<1", "p<1", "k<1", "dimension-mismatch"])
+        st = {"op": "tree", "object": r.choice(["A", "B", "fresh"]), "n_data": r.choice([1, 5, 50, 200]), "n_query": r.choice([1, 7, 100, 401]), "data_seed": r.randrange(10 ** 6),
+              "k": r.choice([0, -1]) if bad == "k<1" else r.choice([1, 1, 3]), "p": r.choice([0.5, 0, -1]) if bad == "p<1" else r.choice([2, 2, 1, float("inf")]),
+              "eps": r.choice([0, 0, 0.5]), "distance_upper_bound": r.choice([float("inf"), 0.8]), "bad": bad, **_seq_cfg(r)}
+    return st
+
+
+def _seq_tree_data(seed, n_data):
+    return np.random.default_rng([seed, 1]).uniform(-1, 1, size=(n_data, 3))
+
+
+def _seq_call(st, objects):
+    """Run one step in both forms. Returns (single, multi), each ('returns', (a, b)) or ('raises', text)."""
+    import pyproj
+    import scipy.spatial as sp
+    from pyresample._spatial_mp import Proj_MP, cKDTree_MP
+    from pyresample.utils.proj4 import get_geodetic_crs_with_no_datum_shift
+    g = np.random.default_rng([st["data_seed"], 0])
+    cfg = {"nprocs": st["nprocs"], "chunk": st["chunk"], "schedule": st["schedule"]}
+
+    def attempt(f):
+        try:
+            with warnings.catch_warnings():
+                warnings.simplefilter("ignore")
+                a, b = f()
+            return ("returns", (np.asarray(a), np.asarray(b)))
+        except Exception as e:  # noqa
+            return ("raises", f"{type(e).__name__}: {str(e)[:120]}")
+
+    if st["op"] == "proj":
+        d = {"proj": "no_such_projection"} if st["bad"] == "unknown-projection" else _SEQ_DEFS[st["definition"]]
+        n = st["n"]
+        lons, lats = g.uniform(-180, 180, n), g.uniform(-80, 80, n)
+        inverse = st["direction"] == "inverse"
+        if inverse and st["bad"] != "unknown-projection":
+            with warnings.catch_warnings():
+                warnings.simplefilter("ignore")
+                a, b = (np.asarray(v, float) for v in pyproj.Proj(**d)(lons, lats))
+        else:
+            a, b = lons, lats
+        if st["bad"] in ("latitude-out-of-range", "inverse-far-outside"):
+            where = np.arange(n) if st["n_bad_points"] == "all" else g.choice(n, size=min(n, st["n_bad_points"]), replace=False)
+            if inverse:
+                a[where] = 1e30
+            else:
+                b[where] = g.choice([-1.0, 1.0], size=len(where)) * g.uniform(90.5, 150.0, size=len(where))
+
+        def single_transformer():
+            crs = pyproj.CRS.from_user_input(d)
+            tr = pyproj.Transformer.from_crs(get_geodetic_crs_with_no_datum_shift(crs), crs, always_xy=True)
+            return tr.transform(a.copy(), b.copy(), errcheck=st["errcheck"], direction="INVERSE" if inverse else "FORWARD")
+
+        def single_proj():
+            return pyproj.Proj(**d)(a.copy(), b.copy(), inverse=inverse, errcheck=st["errcheck"])
+
+        def multi():
+            key = ("proj", st["object"], st["definition"], st["bad"] == "unknown-projection")
+            obj = objects.get(key) if st["object"] != "fresh" else None
+            if obj is None:
+                obj = Proj_MP(**d)
+                objects[key] = obj
+            return obj(a.copy(), b.copy(), inverse=inverse, errcheck=st["errcheck"], **cfg)
+
+        s1, s2 = attempt(single_transformer), attempt(single_proj)
+        single = s1 if s1[0] == s2[0] else ("ambiguous", f"Transformer {s1[0]}, Proj {s2[0]}")
+        return single, attempt(multi)
+    data = _seq_tree_data(st["data_seed"] if st["object"] == "fresh" else {"A": 101, "B": 202}[st["object"]], st["n_data"])
+    q = g.uniform(-1, 1, size=(st["n_query"], 4 if st["bad"] == "dimension-mismatch" else 3))
+    kw = {"k": st["k"], "eps": st["eps"], "p": st["p"], "distance_upper_bound": st["distance_upper_bound"]}
+
+    def multi_tree():
+        # the pooled objects keep the (nprocs, chunk, schedule) of the step that built them
+        key = ("tree", st["object"], st["n_data"])
+        obj = objects.get(key) if st["object"] != "fresh" else None
+        if obj is None:
+            obj = cKDTree_MP(data, **cfg)
+            objects[key] = obj
+        return obj.query(q, **kw)
+
+    return attempt(lambda: sp.cKDTree(data, leafsize=10).query(q, **kw)), attempt(multi_tree)
+
+
+_SEQ_FAILED_CALLS_SO_FAR = [0]      # calls of all sequences run by this interpreter that raised in both forms
+_SEQ_HISTORY = []                   # every call of the sequences run so far by this interpreter, {"op": "new-sequence"} between them
+
+
+def _run_sequence(ctx, steps, suite, seq_id=None):
+    """Every call that returns in its single-process form must return the same arrays in its multi-process form, whatever the calls before it did."""
+    objects = {}
+    failed_before = 0       # calls so far that raised in BOTH forms
+    clean = lambda h: {k: v for k, v in h.items() if not k.startswith("_")}  # noqa: E731
+    earlier = list(_SEQ_HISTORY)
+    _SEQ_HISTORY.append({"op": "new-sequence"})
+    for idx, st in enumerate(steps):
+        if st["op"] == "new-sequence":      # (replay of a record that carries the calls of earlier sequences) the objects in use are dropped here
+            objects.clear()
+            continue
+        _SEQ_HISTORY.append(clean(st))
+        single, multi = _seq_call(st, objects)
+        site = "Proj_MP.__call__" if st["op"] == "proj" else "cKDTree_MP.query"
+        history = [("ok" if h.get("_outcome") == "returns" else "failed") + ":" + h["op"] for h in steps[:idx] if h["op"] != "new-sequence"]
+        inp = {"sequence": [clean(h) for h in steps[: idx + 1]], "failing_step": idx,
+               "outcomes_of_the_earlier_calls": history, "n_earlier_calls_that_failed_in_both_forms": failed_before,
+               "n_calls_of_earlier_sequences_in_this_interpreter_that_failed_in_both_forms": _SEQ_FAILED_CALLS_SO_FAR[0] - failed_before}
+        if not failed_before and _SEQ_FAILED_CALLS_SO_FAR[0]:      # nothing failed yet in this sequence: what the interpreter did before belongs to the input
+            inp["sequence"] = earlier + [{"op": "new-sequence"}] + inp["sequence"]
+            inp["failing_step"] = len(inp["sequence"]) - 1
+        st["_outcome"] = single[0] if single[0] != "ambiguous" else multi[0]
+        ctx.count(f"{suite}.single_{single[0]}.multi_{multi[0]}")
+        if single[0] == "ambiguous":
+            continue
+        if single[0] == "raises":
+            if multi[0] == "raises":
+                failed_before += 1
+                _SEQ_FAILED_CALLS_SO_FAR[0] += 1
+                ctx.count(f"{suite}.failed_call.{st['op']}.{st['bad']}")
+            continue
+        ctx.case(suite, (seq_id, idx, st["op"], st["data_seed"], st["nprocs"], st["chunk"], st["schedule"], failed_before), nontrivial=failed_before > 0,
+                 sample={"input": inp} if failed_before else None)
+        ctx.count(f"{suite}.good_call_after_%s_failed" % min(failed_before, 3))
+        if multi[0] == "raises":
+            ctx.fail(site, f"call number {idx + 1} of a sequence in one interpreter raises {multi[1]} in its multi-process form while the single-process call on the same input returns; "
+                     f"{failed_before} earlier call(s) of the sequence had failed (in both forms, on bad input)", inp, {"multi_process": multi[1]},
+                     tags={"cause": "state-after-failed-call" if failed_before else "raises", "op": st["op"]}, size=len(inp["sequence"]))
+            return True
+        (a, b), (a1, b1) = multi[1], single[1]
+        if a.shape != a1.shape or b.shape != b1.shape or not (np.array_equal(a, a1, equal_nan=True) and np.array_equal(b, b1, equal_nan=True)):
+            ctx.fail(site, f"call number {idx + 1} of a sequence in one interpreter differs from the single-process call on the same input ({failed_before} earlier call(s) had failed on bad input)",
+                     inp, {"shapes": [list(a.shape), list(a1.shape)]}, tags={"cause": "state-after-failed-call" if failed_before else "differs", "op": st["op"]}, size=len(inp["sequence"]))
+            return True
+    return False
+
+
+def suite_real_call_sequences(ctx):
+    """SEQUENCES of Proj_MP / cKDTree_MP calls in this one interpreter - fresh objects and objects used before, any (nprocs, chunk, schedule) - in which some calls fail
+    legitimately (errcheck=True with latitudes beyond the poles or planar coordinates far outside the projection, an unknown projection, a Minkowski p < 1, k < 1, query
+    points of the wrong dimension: whatever raises in the single-process form too).  The single-process counterpart of each call decides what the call has to do; every call
+    that returns there must return the same arrays here, bitwise, whatever happened earlier in the sequence."""
+    import random
+    r = random.Random(f"c15-sequences-{ctx.seed}")
+    nseq = 10 if ctx.quick else 120
+    for seq_id in range(nseq):
+        length = r.randrange(4, 9)
+        steps = [_seq_step(r) for _ in range(length)]
+        # at least one call meant to fail, followed by at least two calls meant to succeed
+        j = r.randrange(0, length - 2)
+        while not steps[j]["bad"]:
+            steps[j] = _seq_step(r)
+        for j in (length - 2, length - 1):
+            while steps[j]["bad"]:
+                steps[j] = _seq_step(r)
+        if _run_sequence(ctx, steps, "real.sequence", seq_id):
+            # whatever is shared between calls is wrong from here on in this interpreter: later sequences would not be independent evidence
+            ctx.count("real.sequence.stopped_after_the_first_failing_sequence")
+            break
+
+
 def run(ctx):
     suite_initchunk(ctx)
     suite_controlled(ctx)
     suite_real_mp(ctx)
     suite_real_kdtree_params(ctx)
     suite_real_proj_definitions(ctx)
+    suite_real_call_sequences(ctx)
 
 
 def search(ctx):
@@ -652,6 +836,12 @@ def replay(ctx, rec):
     i = rec.get("input", {})
     if "interleaving" in i:
         bad = one_run(ctx, i["n"], i["nprocs"], i["chunk"], i["schedule"], i["workers"], i["interleaving"], "replay")
+        print("replay:", "property FAILS on the real code" if bad else "property holds on this input now")
+        for f in ctx.failures:
+            print("  ", f["what"])
+        return 1 if bad else 0
+    if "sequence" in i:
+        bad = _run_sequence(ctx, [dict(st) for st in i["sequence"]], "replay")
         print("replay:", "property FAILS on the real code" if bad else "property holds on this input now")
         for f in ctx.failures:
             print("  ", f["what"])
